@@ -14,6 +14,11 @@ CHECKS["C12"] = dict(cat="fault_enumeration", technique="exhaustive enumeration 
                   "every sequence of up to 2-3 crafted stream elements (lengths/indexes at the format's boundaries, after fillers that park the cursor near the buffer end) must be rejected without touching memory outside the decoder's block.",
              note="memory-safety oracle = guard pages around the decoder block + tail canary (prod build) and ASan (asan build); accesses inside the block are not judged; one known finding (equivalent back-reference index) is listed in KNOWN_FINDINGS.txt",
              ref="§3 C12")
+CHECKS["C02"] = dict(cat="exploration", technique="exhaustive enumeration opcode x operand shape x value grid x engine against an independent reference interpreter",
+             text="Every non-control opcode, every compare-and-branch opcode and every legal overflow-insn/overflow-branch pair is executed in every operand placement (register, immediate, memory in 8 addressing forms and 9 memory types, dst/src aliasing, constant-folded forms) "
+                  "over the full cross product of a boundary-value grid on the interpreter and on generated code at -O0..-O3; results, flags-as-branches and the bytes of the harness buffer are compared with refinterp, which executes the un-linked IR as MIR.md defines it.",
+             note="oracle = core/refinterp.c (my transcription of MIR.md, shares nothing with the library); tuples MIR.md leaves unspecified (division by zero/overflow, over-wide shifts, out-of-range fp->int) are skipped and counted; NaN payloads and the upper half of 32-bit results are not compared",
+             ref="§3 C02")
 NOT_YET = {}
 def main():
     props = [json.loads(l) for l in open(os.path.join(VERIF, "properties.jsonl"))]
